@@ -436,6 +436,75 @@ class Constructors(Harness):
         S.prove("to_stabilizer-phase", np.array_equal(st.phase, spec["phase"][n:]))
 
 
+class Wrappers(Harness):
+    """Stabilizer / MixedStabilizer methods delegate to the right tableau function with the right position
+    (item 7): every unitary method = oracle row map; apply_measurement / reset_qubit / remove_qubit / partial_trace
+    = the obligations of the underlying operation; probabilities of a mixture untouched."""
+
+    weight = 30
+
+    def declare(self, S):
+        spec = declare_clifford(S, self.n)
+        assume_inv(S, spec)
+        return spec
+
+    def body(self, S, spec):
+        from graphiq.backends.stabilizer.state import Stabilizer, MixedStabilizer
+
+        n = self.n
+        old_d, old_s = pre_rows(spec)
+
+        def make():
+            T = fresh_clifford(spec)
+            if self.cls == "Stabilizer":
+                return Stabilizer(T), (lambda st: st.tableau)
+            return MixedStabilizer([(0.25, T)]), (lambda st: st.mixture[0][1])
+
+        unitary = {"apply_hadamard": ("H", 1), "apply_phase": ("P", 1), "apply_phase_dagger": ("P_dag", 1), "apply_sigmax": ("X", 1),
+                   "apply_sigmay": ("Y", 1), "apply_sigmaz": ("Z", 1), "apply_cnot": ("CNOT", 2), "apply_cz": ("CZ", 2)}
+        for meth, (g, arity) in (unitary.items() if self.part == "unitary" else []):
+            for pos in ([(q,) for q in range(n)] if arity == 1 else [(a, b) for a in range(n) for b in range(n) if a != b]):
+                st, tab = make()
+                if arity == 1:
+                    getattr(st, meth)(pos[0])
+                else:
+                    getattr(st, meth)(control=pos[0], target=pos[1])
+                nd, ns = post_rows(tab(st))
+                S.prove(f"{meth}{list(pos)}", b_and(*[O.row_eq(a, O.apply_gate(o, (g, *pos))) for a, o in zip(nd + ns, old_d + old_s)]))
+                if self.cls == "MixedStabilizer":
+                    S.prove(f"{meth}{list(pos)}-weight-untouched", st.mixture[0][0] == 0.25 and len(st.mixture) == 1)
+        for q in (range(n) if self.part == "measure" else []):
+            st, tab = make()
+            out = st.apply_measurement(q, measurement_determinism=self.det)
+            outcome = out if self.cls == "Stabilizer" else out[0]
+            T2 = tab(st)
+            if prove_inv(S, T2, tag=f"inv:apply_measurement[{q}]"):
+                nd, ns = post_rows(T2)
+                measure_rows_obligations(S, n, old_s, nd, ns, q, outcome, self.det, tag=f"apply_measurement[{q}]:")
+            st, tab = make()
+            st.reset_qubit(q, measurement_determinism=self.det)
+            T2 = tab(st)
+            if prove_inv(S, T2, tag=f"inv:reset_qubit[{q}]"):
+                nd, ns = post_rows(T2)
+                S.prove(f"reset_qubit[{q}]-leaves-ket0", O.member_with_destabs(O.Row.single(n, q, "Z"), ns, nd))
+        if self.cls == "Stabilizer" and self.part == "unitary":
+            st, tab = make()
+            st.apply_circuit([("H", 0), ("P", n - 1)])
+            nd, ns = post_rows(tab(st))
+            S.prove("apply_circuit", b_and(*[O.row_eq(a, O.apply1(O.apply1(o, "H", 0), "P", n - 1)) for a, o in zip(nd + ns, old_d + old_s)]))
+        if n >= 2 and self.part == "resize":
+            for q in range(n):
+                st, tab = make()
+                st.remove_qubit(q, measurement_determinism=self.det)
+                S.prove(f"remove_qubit[{q}]-n", tab(st).n_qubits == n - 1)
+                st, tab = make()
+                st.partial_trace([k for k in range(n) if k != q], n * [2])
+                S.prove(f"partial_trace[{q}]-n", tab(st).n_qubits == n - 1)
+                st, tab = make()
+                st.trace_out_qubits([k for k in range(n) if k != q], measurement_determinism=self.det)
+                S.prove(f"trace_out_qubits-keeps-listed[{q}]-n", tab(st).n_qubits == n - 1)
+
+
 def plan(tier):
     jobs = []
     q = tier == "quick"
@@ -495,4 +564,9 @@ def plan(tier):
         jobs.append((Tensor(n1=n1, n2=n2), {}))
     for n in ([1, 2] if q else [1, 2, 3]):
         jobs.append((Constructors(n=n), {}))
+    for cls in ("Stabilizer", "MixedStabilizer"):
+        jobs.append((Wrappers(n=2, cls=cls, det=1, part="unitary"), {}))
+        for det in ((1,) if q else (0, 1, "probabilistic")):
+            jobs.append((Wrappers(n=2, cls=cls, det=det, part="measure"), {}))
+            jobs.append((Wrappers(n=2, cls=cls, det=det, part="resize"), {}))
     return jobs
